@@ -205,11 +205,18 @@ impl WriteAheadLog {
         // entry. Keep that segment even if everything in it is older than `seq`: with an
         // empty active segment (crash right after rotation) removing it would restart
         // numbering at 1, below sequence numbers that were already acknowledged.
+        //
+        // Only an empty active segment needs this: once it holds an entry it is itself the
+        // newest non-empty segment and is never removed below. (Its content is not read back
+        // from disk here, because without sync-on-write the last append may still be in
+        // flight.)
         let mut newest_non_empty = None;
-        for segment in segments.iter().rev() {
-            if last_sequence_for_segment(&segment.path)?.is_some() {
-                newest_non_empty = Some(segment.id);
-                break;
+        if self.current_size == 0 {
+            for segment in segments.iter().rev() {
+                if last_sequence_for_segment(&segment.path)?.is_some() {
+                    newest_non_empty = Some(segment.id);
+                    break;
+                }
             }
         }
         for segment in segments {
